@@ -884,3 +884,6 @@ Proof. vm_compute. repeat split. Qed.
 Lemma value_layer_total : forall re c lhs rhs name args,
   cmp_compare re c lhs rhs <> OutOfFuel /\ call_fn name args <> OutOfFuel.
 Proof. intros. split; [apply nf_cmp_compare|apply nf_call_fn]. Qed.
+
+Lemma ex_prog_pwf : pwf_prog RefineExample.ex_prog = true.
+Proof. vm_compute. reflexivity. Qed.
